@@ -136,6 +136,20 @@ CLAIMED["C09"] = dict(
     technique="Lean 4 theorems (frame rule, finite-map laws, integer order) + differential operation sequences against the Lean value model",
     design="§5 C09")
 
+CLAIMED["C12"] = dict(
+    text="Lean 4 proofs over a model of jsoncons' JSONPath selectors (identifier, index, wildcard, slice, union, recursive descent, comparison filters), "
+         "result options and json_replace: every returned normalized path resolves to exactly the value returned with it, under every option set; the "
+         "slice start/stop/step arithmetic selects exactly the RFC 9535 slice for all integers, inside the array, nothing twice, in step order; sort is a "
+         "sorted permutation, nodups the first occurrence of each path, sort|nodups a sorted duplicate-free list with the same paths; json_replace leaves every "
+         "node that diverges from all selected paths unchanged and every outermost selected node holds the new value. Tie: generated expressions (random "
+         "spellings) x json/ojson documents x 7 option sets run through the real library; callback, value, path, compiled (twice), select and select_paths "
+         "forms cross-checked; paths re-resolved independently; node lists and json_replace results compared with the Lean model.",
+    note="Partial: the expression parser is not modelled (the generator renders the AST to text; a parser slip shows as a node-list difference); functions, "
+         "the length pseudo-member, integer-like identifiers on arrays, parent operator, regex and arithmetic in filters, and doubles are outside the model. "
+         "D3 (slice index overflow), D32 (json_replace moved the new value), D33 (sort_descending without paths) found and fixed.",
+    technique="Lean 4 theorems (paths resolve, RFC 9535 slice equivalence, option laws, json_replace exactness) + differential queries against the Lean selector model",
+    design="§5 C12")
+
 ALL = ["C%02d" % i for i in range(1, 21)]
 NOT_YET = "not claimed yet: the Lean model, theorems and correspondence harness for this property are still being built (see DESIGN.md §8 staging)"
 
